@@ -17,9 +17,10 @@ EXTRA_TARGETS = ["MG.DriverEng"]
 THEOREMS = {
     "MG.Proofs.C13": [
         "MG.C13.failed_op_is_noop",
+        "MG.C13.reroute_spec",
         "MG.C13.restore_reroutes_back",
-        "MG.C13.failed_inplace_keeps_public_state",
-    ]
+        "MG.C13.restore_inverts_duplicate",
+    ],
 }
 
 GEN = dict(inplace=True, p_inplace=0.25, p_view=0.25, p_fail=0.22, p_const=0.12, n_stmts=10)
